@@ -528,9 +528,142 @@ impl Prop for Concurrent {
     }
 }
 
+// ---------------------------------------------------------------------------------------
+// Part `sparse-probes`: the other parts probe every (service, message) pair in one fixed order after every step,
+// so the last lookup before a step is always the same pair.  Here each step is followed by 0-3 generated probes
+// (the same pair may be asked again and again), and everything is probed at the end.
+
+#[derive(Debug, Clone)]
+pub struct SparseCase {
+    /// (symbol 0..11: add W0..W5 / remove W0..W5, probes after the step: indices into the twelve pairs)
+    pub steps: Vec<(u8, Vec<u8>)>,
+}
+
+pub struct Sparse;
+
+async fn probe_pair(addr: SocketAddr, idx: u8, n: u32) -> (u8, u8, Result<Tag, Status>) {
+    let channel = Channel::connect(addr);
+    let mut out: Vec<(u8, u8, Result<Tag, Status>)> = vec![];
+    match idx {
+        0 => { wide_probe!(out, channel, W0, 10, M0, 0, n); },
+        1 => { wide_probe!(out, channel, W0, 10, M1, 1, n); },
+        2 => { wide_probe!(out, channel, W0, 10, M2, 2, n); },
+        3 => { wide_probe!(out, channel, W0, 10, M3, 3, n); },
+        4 => { wide_probe!(out, channel, W1, 11, M0, 0, n); },
+        5 => { wide_probe!(out, channel, W2, 12, M1, 1, n); },
+        6 => { wide_probe!(out, channel, W2, 12, M2, 2, n); },
+        7 => { wide_probe!(out, channel, W3, 13, M3, 3, n); },
+        8 => { wide_probe!(out, channel, W4, 14, M0, 0, n); },
+        9 => { wide_probe!(out, channel, W4, 14, M2, 2, n); },
+        10 => { wide_probe!(out, channel, W4, 14, M3, 3, n); },
+        _ => { wide_probe!(out, channel, W5, 15, M1, 1, n); },
+    }
+    out.pop().unwrap()
+}
+
+impl Prop for Sparse {
+    type Case = SparseCase;
+
+    fn id(&self) -> &'static str {
+        "C13"
+    }
+
+    fn part(&self) -> &'static str {
+        "sparse-probes"
+    }
+
+    fn width(&self) -> usize {
+        16 * 6 + 4
+    }
+
+    fn gen(&self, src: &mut Src) -> SparseCase {
+        let n = 1 + src.below(16);
+        let mut last_probe = src.below(12) as u8;
+        let steps = (0..n)
+            .map(|_| {
+                let sym = src.below(12) as u8;
+                let probes = (0..src.below(4))
+                    .map(|_| {
+                        // half of the probes repeat the previous one, or ask for the service the step just touched
+                        let p = match src.weighted(&[2, 1, 1]) {
+                            0 => src.below(12) as u8,
+                            1 => last_probe,
+                            _ => [0u8, 4, 5, 7, 8, 11][(sym % 6) as usize],
+                        };
+                        last_probe = p;
+                        p
+                    })
+                    .collect();
+                (sym, probes)
+            })
+            .collect();
+        SparseCase { steps }
+    }
+
+    fn run(&self, case: &SparseCase) -> Outcome {
+        e3::sim(1, 70_000_000, Default::default(), |_net| async move {
+            let addr: SocketAddr = ([10, 3, 0, 4], 7000).into();
+            let server = Server::listen(addr).await.expect("listen");
+            let mut registered: BTreeSet<u8> = BTreeSet::new();
+            let mut probed_before_add = false;
+            let mut last: Option<u8> = None;
+            for (i, (sym, probes)) in case.steps.iter().enumerate() {
+                let svc = sym % 6;
+                let add = *sym < 6;
+                if add && !registered.contains(&(10 + svc)) && last.map(|p| [0u8, 0, 0, 0, 1, 2, 2, 3, 4, 4, 4, 5][p as usize] == svc).unwrap_or(false) {
+                    probed_before_add = true;
+                }
+                apply_wide(&server, add, svc);
+                if add {
+                    registered.insert(10 + svc);
+                } else {
+                    registered.remove(&(10 + svc));
+                }
+                for p in probes {
+                    let n = i as u32 + 1;
+                    let (svc_tag, msg_tag, res) = probe_pair(addr, *p, n).await;
+                    last = Some(*p);
+                    let step = format!("after step {i} ({} W{}), probe of pair {p}", if add { "add" } else { "remove" }, svc);
+                    let want = registered.contains(&svc_tag);
+                    match res {
+                        Ok(tag) => {
+                            ensure!(want, "served-while-unregistered", "{step}: message M{msg_tag} of W{} served by {:?} although it is not registered (registered: {:?})", svc_tag - 10, tag, registered);
+                            ensure!(tag == Tag(svc_tag, msg_tag, n), "served-by-wrong-handler", "{step}: message M{msg_tag} sent to W{} answered by {:?}", svc_tag - 10, tag);
+                        },
+                        Err(status) => {
+                            ensure!(!want, "refused-while-registered", "{step}: message M{msg_tag} of W{} refused ({:?}) although it is registered (registered: {:?})", svc_tag - 10, status, registered);
+                            ensure!(status.code == ErrorCode::ServiceUnavailable, "wrong-refusal-code", "{step}: unregistered W{} refused with {:?}", svc_tag - 10, status);
+                        },
+                    }
+                }
+            }
+            probe_wide(addr, &registered, "at the end (all pairs)", 1_000).await?;
+            datacake_rpc::verif::unregister(addr);
+            server.shutdown();
+            let mut labels = vec![];
+            if probed_before_add {
+                labels.push("refused_probe_right_before_its_service_is_added");
+            }
+            Ok(Pass { nontrivial: probed_before_add, labels })
+        })
+    }
+
+    fn describe(&self, case: &SparseCase) -> Value {
+        json!({ "steps_(symbol 0-5 add W0-W5, 6-11 remove; probes = pair indices)": case.steps })
+    }
+
+    fn rule(&self) -> &'static str {
+        "the six services of part many-services; 1-16 add/remove steps, each followed by 0-3 probes of generated \
+         (service, message) pairs -- half of them repeat the previous probe or ask for the service the step just \
+         touched --, and all twelve pairs at the end; same oracle; non-trivial = the last probe before an add was a \
+         refused request for that very service"
+    }
+}
+
 pub fn parts_all() -> Vec<Box<dyn DynPart>> {
     let mut p = parts();
     p.push(Box::new(Gen::new(Wide, 20_000, 500_000)));
     p.push(Box::new(Gen::new(Concurrent, 1_600, 50_000)));
+    p.push(Box::new(Gen::new(Sparse, 60_000, 3_000_000)));
     p
 }
